@@ -227,10 +227,19 @@ func runC08(c *Ctx) {
 				}
 				okU, _ := ff.BoolHoldsAt(r.Block(), IsCall("unicode/utf8.Valid"), true)
 				okN, _ := ff.BoolHoldsAt(r.Block(), IsCall("codec.isNormalizedString"), true)
+				if !okN {
+					// the library check asked directly
+					okN, _ = ff.BoolHoldsAt(r.Block(), Matcher{"norm.NFC.IsNormal", func(t *Term) bool {
+						return t.Op == "call" && strings.HasSuffix(t.Sym, "norm.Form).IsNormal") && (t.Args[0].String() == "0" || strings.Contains(t.Args[0].String(), "NFC")) // norm.NFC is Form(0)
+					}}, true)
+				}
 				c.Require("C08.P1 string-canonical", FuncKey(rs)+": success", p.InstrPos(r), "a string is returned only after utf8.Valid and the NFC check both answered true", okU && okN, fmt.Sprintf("utf8=%v nfc=%v", okU, okN))
 			}
 		}
-		ns := c.Anchor("pkg/codec.isNormalizedString")
+		var ns *ssa.Function
+		if p.Fn("pkg/codec.isNormalizedString") != nil || len(CallsIn(rs, "codec.isNormalizedString")) > 0 || rs == nil {
+			ns = c.Anchor("pkg/codec.isNormalizedString") // the reader's own wrapper of the check, while it exists
+		}
 		if ns != nil {
 			ff := factsOf(ns)
 			for _, r := range Returns(ns) {
@@ -300,6 +309,7 @@ func runC08(c *Ctx) {
 	// ---- I1 IDs
 	{
 		n := 0
+		establishers := map[*ssa.Function]bool{} // functions that compute an ID themselves
 		for _, fn := range p.Subjects() {
 			if !strings.HasPrefix(FuncKey(fn), "pkg/blockchain.") || len(fn.Blocks) == 0 {
 				continue
@@ -334,6 +344,9 @@ func runC08(c *Ctx) {
 					// … and it is recomputed on every successful path through the function: an ID
 					// already present (from JSON, from an earlier Init before a change) is never trusted
 					if ok2 {
+						if base == "p0" {
+							establishers[fn] = true
+						}
 						ff := factsOf(fn)
 						isSt := func(x ssa.Instruction) bool { return x == ssa.Instruction(st) }
 						first := fn.Blocks[0].Instrs[0]
@@ -346,7 +359,35 @@ func runC08(c *Ctx) {
 				}
 			}
 		}
-		c.MinInstances("C08.I1 id-is-hash-of-encoding", n, 5)
+		// a function may also leave the computation to one of those (x.Init()): then the call
+		// must be on every successful path
+		for _, fn := range p.Subjects() {
+			if !strings.HasPrefix(FuncKey(fn), "pkg/blockchain.") || len(fn.Blocks) == 0 || !IsProd(fn) {
+				continue
+			}
+			for _, call := range AllCallsDeep(fn) {
+				g := call.Common().StaticCallee()
+				if g == nil || !establishers[g] || call.Parent() != fn {
+					continue
+				}
+				if _, plain := call.(*ssa.Call); !plain {
+					continue
+				}
+				n++
+				if rt := T(call.Common().Args[0]); rt.Op != "param" && !strings.HasPrefix(rt.Op, "alloc") && rt.Op != "new" {
+					continue // an element of a list (each transaction of a block): nothing to skip when the list is empty
+				}
+				ff := factsOf(fn)
+				isCall := func(x ssa.Instruction) bool { return x == call.(ssa.Instruction) }
+				first := fn.Blocks[0].Instrs[0]
+				var path []*ssa.BasicBlock
+				if !isCall(first) {
+					path = reachesReturnAvoiding(first, isCall, func(r *ssa.Return) bool { return classifyReturn(ff, r) != RetErr })
+				}
+				c.Require("C08.I1 id-recomputed-unconditionally", FuncKey(fn)+" ⇒ "+FuncName(g), p.InstrPos(call), "no successful path through the function skips the ID computation", path == nil, pathStr(path))
+			}
+		}
+		c.MinInstances("C08.I1 id-is-hash-of-encoding", n, 9)
 		nt := c.Anchor("pkg/blockchain.NewTransaction")
 		if nt != nil {
 			c.Require("C08.I1 transactions-decoded-strictly", FuncKey(nt), p.Pos(nt.Pos()), "transactions built from bytes use DecodeStrict", len(CallsIn(nt, "(*blockchain.Transaction).DecodeStrict")) == 1 && len(CallsIn(nt, "(*blockchain.Transaction).Decode")) == 0, "")
